@@ -58,6 +58,12 @@ def dense2(n: size, A: f32[n, 4]):
         A[i, 3] = 1.0
 
 @proc
+def upto(n: size, a: [f32][4]):
+    for i in seq(0, 4):
+        if i < n:
+            a[i] = 7.0
+
+@proc
 def nested(n: size, a: [f32][n]):
     assert n >= 2
     fill(n - 1, a[1:n])
@@ -384,6 +390,16 @@ class Gen:
             if slack:
                 self.nm_used = False
             return False
+        if len(conds) == 1 and rng.random() < 0.4:
+            # the access sits in the else branch of the complementary test
+            c = conds[0]
+            neg = c.replace(" >= ", " < ") if " >= " in c else c.replace(" < ", " >= ")
+            self.emit(ind, f"if {neg}:")
+            self.emit(ind + 1, "pass")
+            self.emit(ind, "else:")
+            self.emit(ind + 1, f"{b.name}[{e}] = {self.rhs(cx, bufs)}")
+            self.features.add("guard-else")
+            return True
         for k, c in enumerate(conds):
             self.emit(ind + k, f"if {c}:")
         self.emit(ind + len(conds), f"{b.name}[{e}] = {self.rhs(cx, bufs)}")
@@ -492,9 +508,11 @@ class Gen:
         one_d = [b for b in bufs if len(b.shape) == 1]
         two_d = [b for b in bufs if len(b.shape) == 2]
         choice = rng.choice(["fill", "fill", "cp", "third", "unit", "acc", "mat", "edge", "winvar", "dense2",
-                             "nested"])
+                             "nested", "upto"])
         if self.nm in ("call-extent", "call-size0", "winvar-call") and not self.nm_used:
             choice = rng.choice(["fill", "winvar"]) if self.nm != "winvar-call" else "winvar"
+            if self.nm == "call-size0":
+                choice = "upto"
         if self.nm == "call-assert" and not self.nm_used:
             choice = rng.choice(["third", "edge", "nested"])
         if self.nm == "call-alias" and not self.nm_used:
@@ -550,6 +568,20 @@ class Gen:
             self.features.add("call")
             if b.kind == "win":
                 self.features.add("call-window-of-window")
+            return True
+        if choice == "upto":
+            src = [b for b in one_d if (cx.min(b.shape[0]) or 0) >= 4]
+            if not src:
+                return False
+            b = rng.choice(src)
+            sz = self.size_form(cx)
+            if (cx.min(sz) or 0) < 1:
+                return False
+            if self.take_nm("call-size0"):
+                sz = Aff.var(rng.choice(list(cx.sizes))) - 1
+            lo = rng.randint(0, (cx.min(b.shape[0]) or 4) - 4)
+            self.emit(ind, f"upto({sz}, {b.name}[{lo}:{lo + 4}])")
+            self.features.add("call")
             return True
         if choice == "winvar":
             src = [b for b in bufs if b.kind == "win" and len(b.shape) == 1]
@@ -936,6 +968,34 @@ def tgt(n: size, z: f32[n, 4]):
 @proc
 def tgt(x: f32[8]):
     fill(5, x[0:4])
+''',
+    "call-size0-free": '''
+@proc
+def tgt(n: size, x: f32[4]):
+    upto(n - 1, x[0:4])
+''',
+    "call-size-free-ok": '''
+@proc
+def tgt(n: size, x: f32[n + 3]):
+    upto(n, x[0:4])
+''',
+    "else-unsafe": '''
+@proc
+def tgt(n: size, k: index, x: f32[n]):
+    assert k < n
+    if k >= 0:
+        pass
+    else:
+        x[k] = 1.0
+''',
+    "else-safe": '''
+@proc
+def tgt(n: size, k: index, x: f32[n]):
+    assert k < n
+    if k < 0:
+        pass
+    else:
+        x[k] = 1.0
 ''',
     "alloc-nonpos": '''
 @proc
